@@ -92,6 +92,10 @@ def run(ctx):
             except OverflowError:
                 ok = False
                 break
+            if p.steps != steps[-1]:
+                ctx.fail(f'scheduler.step({arg}) changed the preconditioner\'s step count from {steps[-1]} to {p.steps}',
+                         {'vals': vals, 'calls': calls, 'steps': steps}, 'steps-clobbered')
+                p._steps = steps[-1]
             # what the preconditioner will use: the public properties
             cur = [p.factor_update_steps, p.inv_update_steps, p.damping, p.factor_decay, p.kl_clip, p.lr]
             # values must still be exactly representable for the exact comparison to be meaningful
